@@ -14,7 +14,8 @@ namespace YaraModel.ReEmit
 open YaraModel.Re YaraModel.ReVm
 
 /-- the fragment covered by the VM soundness proof: every node kind except counted repeats `e{n,m}` of a non-dot body
-    and the empty alternative — hex patterns (bytes, masks, negations, jumps, nested alternatives) entirely -/
+    other than `e?` (= `e{0,1}`, which is covered) and the empty alternative — hex patterns (bytes, masks, negations, jumps,
+    nested alternatives) entirely -/
 inductive Frag : Re → Prop
   | lit (b) : Frag (.lit b)
   | masked (v m) : Frag (.masked v m)
@@ -35,6 +36,7 @@ inductive Frag : Re → Prop
   | nonWordB : Frag .nonWordB
   | star {a} (g : Bool) : Frag a → Frag (.star a g)
   | plus {a} (g : Bool) : Frag a → Frag (.plus a g)
+  | opt {a} (g : Bool) : Frag a → Frag (.range a 0 1 g)
   | cat {a b} : Frag a → Frag b → Frag (.cat a b)
   | alt {a b} : Frag a → Frag b → Frag (.alt a b)
 
@@ -45,6 +47,7 @@ def clen : Re → Nat
   | .bol => 1 | .eol => 1 | .wordB => 1 | .nonWordB => 1
   | .star a _ => 4 + clen a + 3
   | .plus a _ => clen a + 4
+  | .range a 0 1 _ => 4 + clen a
   | .cat a b => clen a + clen b
   | .alt a b => 4 + clen a + 3 + clen b
   | _ => 0
@@ -76,6 +79,8 @@ inductive Seg (code : Code) : Re → Nat → Nat → Prop
       Seg code x (a + 4) m → u8 code m = OP_JUMP → addOff m (i16 code (m + 1)) = a → Seg code (.star x g) a (m + 3)
   | plus {x : Re} {a m : Nat} {g : Bool} : Seg code x a m → (u8 code m = OP_SPLIT_A ∨ u8 code m = OP_SPLIT_B) →
       addOff m (i16 code (m + 2)) = a → Seg code (.plus x g) a (m + 4)
+  | opt {x : Re} {a m : Nat} {g : Bool} : (u8 code a = OP_SPLIT_A ∨ u8 code a = OP_SPLIT_B) → addOff a (i16 code (a + 2)) = m →
+      Seg code x (a + 4) m → Seg code (.range x 0 1 g) a m
   | cat {x y : Re} {a m b : Nat} : Seg code x a m → Seg code y m b → Seg code (.cat x y) a b
   | alt {x y : Re} {a m b : Nat} : u8 code a = OP_SPLIT_A → addOff a (i16 code (a + 2)) = m + 3 → Seg code x (a + 4) m →
       u8 code m = OP_JUMP → addOff m (i16 code (m + 1)) = b → Seg code y (m + 3) b → Seg code (.alt x y) a b
@@ -85,6 +90,7 @@ theorem Seg.len {code : Code} {r : Re} {a b : Nat} (h : Seg code r a b) : b = a 
   | lit _ _ | notLit _ _ | masked _ _ _ | maskedNot _ _ _ | any _ | cls _ _ _ | jump _ _ _ _ | wordCh _ | nonWordCh _ | space _ | nonSpace _ | digit _ | nonDigit _ | bol _ | eol _ | wordB _ | nonWordB _ => simp [clen]
   | star _ _ _ _ _ ih => simp only [clen]; omega
   | plus _ _ _ ih => simp only [clen]; omega
+  | opt _ _ _ ih => simp only [clen]; omega
   | cat _ _ ih1 ih2 => simp only [clen]; omega
   | alt _ _ _ _ _ _ ih1 ih2 => simp only [clen]; omega
 
@@ -93,6 +99,7 @@ theorem Seg.pos {code : Code} {r : Re} {a b : Nat} (h : Seg code r a b) : a < b 
   | lit _ _ | notLit _ _ | masked _ _ _ | maskedNot _ _ _ | any _ | cls _ _ _ | jump _ _ _ _ | wordCh _ | nonWordCh _ | space _ | nonSpace _ | digit _ | nonDigit _ | bol _ | eol _ | wordB _ | nonWordB _ => omega
   | star _ _ _ _ _ ih => omega
   | plus _ _ _ ih => omega
+  | opt _ _ _ ih => omega
   | cat _ _ ih1 ih2 => omega
   | alt _ _ _ _ _ _ ih1 ih2 => omega
 
@@ -125,6 +132,9 @@ def lang (fl : Flags) (buf : Bytes) : Re → Nat → Lang → Nat → Int → Mo
       if ip < mid then lang fl buf x a (fun q q' => K q q' ∨ ∃ t, Re.Matches fl buf (.plus x g) q t ∧ K t q') ip rc m
       else if ip = mid then fun q q' => K q q' ∨ ∃ t, Re.Matches fl buf (.plus x g) q t ∧ K t q'
       else K
+  | .range x 0 1 g, a, K, ip, rc, m =>
+      if ip = a then fun q q' => ∃ t, Re.Matches fl buf (.range x 0 1 g) q t ∧ K t q'
+      else lang fl buf x (a + 4) K ip rc m
   | .rangeAny lo hi _, a, K, ip, rc, m =>
       if ip = a then
         match m with
@@ -160,6 +170,10 @@ theorem lang_entry {code : Code} {r : Re} {a b : Nat} (hs : Seg code r a b) (K :
     rcases hk with hk | ⟨t2, ht2, hk2⟩
     · exact ⟨t, .plusOne ht, hk⟩
     · exact ⟨t2, .plusStep ht ht2, hk2⟩
+  | @opt x a m g _ _ h1 ih =>
+    intro h
+    simp only [lang, if_true] at h
+    exact h
   | @cat x y a m b h1 h2 ih1 ih2 =>
     intro h
     have hm : m = a + clen x := h1.len
@@ -197,6 +211,11 @@ theorem lang_end {code : Code} {r : Re} {a b : Nat} (hs : Seg code r a b) (K : L
     have c2 : ¬ m + 4 < a + clen x := by omega
     have c3 : ¬ m + 4 = a + clen x := by omega
     simp only [lang, c2, c3, if_false]
+  | @opt x a m g _ _ h1 ih =>
+    have p1 := h1.pos
+    have c1 : ¬ m = a := by omega
+    simp only [lang, c1, if_false]
+    exact ih K
   | @cat x y a m b h1 h2 ih1 ih2 =>
     have hm : m = a + clen x := h1.len
     have : ¬ b < a + clen x := by have := h2.pos; omega
@@ -220,7 +239,6 @@ def specFlags (v : VmFlags) : Flags := { wide := false, nocase := v.nocase, dota
 structure FwdByte (e : Env) : Prop where
   notWide : e.fl.wide = false
   notBack : e.fl.backwards = false
-  notScan : e.fl.scan = false
   startIn : e.start ≤ e.buf.size
 
 theorem cs_one {e : Env} (h : FwdByte e) : e.cs = 1 := by simp [Env.cs, h.notWide]
@@ -260,6 +278,7 @@ def Valid : Re → Nat → Nat → Int → Mode → Prop
       (ip = a + 4 + clen x ∧ rc = -1 ∧ m = .run) ∨ Valid y (a + 4 + clen x + 3) ip rc m
   | .star x _, a, ip, rc, m => (ip = a ∧ rc = -1 ∧ m = .run) ∨ Valid x (a + 4) ip rc m ∨ (ip = a + 4 + clen x ∧ rc = -1 ∧ m = .run)
   | .plus x _, a, ip, rc, m => Valid x a ip rc m ∨ (ip = a + clen x ∧ rc = -1 ∧ m = .run)
+  | .range x 0 1 _, a, ip, rc, m => (ip = a ∧ rc = -1 ∧ m = .run) ∨ Valid x (a + 4) ip rc m
   | .rangeAny _ hi _, a, ip, rc, m => ip = a ∧ ((m = .run ∧ rc = -1) ∨ (m ≠ .run ∧ 1 ≤ rc ∧ rc ≤ hi))
   | _, a, ip, rc, m => ip = a ∧ rc = -1 ∧ m = .run
 
@@ -284,6 +303,12 @@ theorem valid_range {code : Code} {r : Re} {a b : Nat} (hs : Seg code r a b) {ip
     rcases h with h | h
     · have := ih h; omega
     · omega
+  | @opt x a m g _ _ h1 ih =>
+    have p1 := h1.pos
+    simp only [Valid] at h
+    rcases h with h | h
+    · omega
+    · have := ih h; omega
   | @cat x y a m b h1 h2 ih1 ih2 =>
     have hm : m = a + clen x := h1.len
     have p1 := h1.pos; have p2 := h2.pos
@@ -308,6 +333,7 @@ theorem valid_first {code : Code} {r : Re} {a b : Nat} (hs : Seg code r a b) : V
   | jump _ _ _ _ => simp [Valid]
   | star _ _ _ _ _ _ => exact .inl ⟨rfl, rfl, rfl⟩
   | plus _ _ _ ih => exact .inl ih
+  | opt _ _ _ _ => exact .inl ⟨rfl, rfl, rfl⟩
   | cat _ _ ih1 _ => exact .inl ih1
   | alt _ _ _ _ _ _ _ _ => exact .inl ⟨rfl, rfl, rfl⟩
 
@@ -1012,6 +1038,80 @@ theorem seg_step (e : Env) (h : FwdByte e) {r : Re} {a b : Nat} (hs : Seg e.code
         rw [hop] at hc
         simp [isConsuming, OP_SPLIT_A, OP_SPLIT_B, OP_JUMP, OP_ANY, OP_REPEAT_ANY_GREEDY, OP_REPEAT_ANY_UNGREEDY, OP_LITERAL, OP_NOT_LITERAL, OP_MASKED_LITERAL,
           OP_MASKED_NOT_LITERAL, OP_CLASS, OP_WORD_CHAR, OP_NON_WORD_CHAR, OP_SPACE, OP_NON_SPACE, OP_DIGIT, OP_NON_DIGIT] at hc
+  | @opt x a m g o1 o2 s1 ih =>
+    intro K f md hst
+    have p1 := s1.pos
+    simp only [Valid] at hst
+    obtain ⟨OK, hOK⟩ : ∃ OK : Lang, OK = fun q q' => ∃ t, Re.Matches (specFlags e.fl) e.buf (.range x 0 1 g) q t ∧ K t q' := ⟨_, rfl⟩
+    have hla : ∀ rc md, lang (specFlags e.fl) e.buf (.range x 0 1 g) a K a rc md = OK := by
+      intro rc md; simp only [lang, if_true]; rw [hOK]
+    have hlx : ∀ ip rc md, a < ip → lang (specFlags e.fl) e.buf (.range x 0 1 g) a K ip rc md = lang (specFlags e.fl) e.buf x (a + 4) K ip rc md := by
+      intro ip rc md h1; simp only [lang]; rw [if_neg (by omega)]
+    have liftx : ∀ (g' : Fiber) (md' : Mode), (Valid x (a + 4) g'.ip g'.rc md' ∨ AtEnd m g' md') →
+        (Valid (.range x 0 1 g) a g'.ip g'.rc md' ∨ AtEnd m g' md') ∧
+        lang (specFlags e.fl) e.buf (.range x 0 1 g) a K g'.ip g'.rc md' = lang (specFlags e.fl) e.buf x (a + 4) K g'.ip g'.rc md' := by
+      intro g' md' hg
+      rcases hg with h1 | ⟨h1, h2, h3⟩
+      · have r := valid_range s1 h1
+        exact ⟨.inl (.inr h1), hlx _ _ _ (by omega)⟩
+      · exact ⟨.inr ⟨h1, h2, h3⟩, hlx _ _ _ (by rw [h1]; omega)⟩
+    rcases hst with hst | hst
+    · -- the split: into the body, or over it
+      obtain ⟨hip, hrc, hmd⟩ := hst
+      have hop : u8 e.code f.ip = OP_SPLIT_A ∨ u8 e.code f.ip = OP_SPLIT_B := by rw [hip]; exact o1
+      have hnany : ¬ (u8 e.code f.ip = OP_REPEAT_ANY_GREEDY ∨ u8 e.code f.ip = OP_REPEAT_ANY_UNGREEDY) := by
+        rcases hop with h1 | h1 <;> rw [h1] <;> decide
+      refine ⟨?_, ?_, ?_, by rcases hop with h1 | h1 <;> rw [h1] <;> decide, fun bm _ _ hz => by
+        rw [zw_split_false e bm (by rcases hop with h1 | h1; exact .inl h1; exact .inr (.inl h1))] at hz; simp at hz⟩
+      · intro g' hg _
+        rcases estep_split hg hop with rfl | rfl
+        · obtain ⟨l1, l2⟩ := liftx { f with ip := f.ip + 4 } .run (.inl (by simp only; rw [hip, hrc]; exact valid_first s1))
+          refine ⟨l1, ?_⟩
+          intro q q' hq
+          rw [hip, hla]; rw [l2] at hq
+          simp only at hq
+          rw [hip, hrc] at hq
+          obtain ⟨t, ht, hk⟩ := lang_entry _ _ s1 K _ _ hq
+          rw [hOK]
+          exact ⟨t, .rangeStep (by decide) ht .rangeStop, hk⟩
+        · refine ⟨.inr ⟨by simp only; rw [hip, o2], hrc, rfl⟩, ?_⟩
+          intro q q' hq
+          simp only at hq
+          rw [hip, o2, lang_end _ _ (Seg.opt (g := g) o1 o2 s1) K] at hq
+          rw [hip, hla, hOK]
+          exact ⟨q, .rangeStop, hq⟩
+      · intro g' stop hg _
+        exact absurd hg (fun hh => no_astep hh hnany)
+      · intro bm hc
+        rcases hop with h1 | h1 <;> rw [h1] at hc <;> simp [isConsuming, OP_SPLIT_A, OP_SPLIT_B, OP_JUMP, OP_ANY, OP_REPEAT_ANY_GREEDY, OP_REPEAT_ANY_UNGREEDY, OP_LITERAL, OP_NOT_LITERAL, OP_MASKED_LITERAL,
+          OP_MASKED_NOT_LITERAL, OP_CLASS, OP_WORD_CHAR, OP_NON_WORD_CHAR, OP_SPACE, OP_NON_SPACE, OP_DIGIT, OP_NON_DIGIT] at hc
+    · have r := valid_range s1 hst
+      obtain ⟨e1, e2, e3, e4, e5⟩ := ih K f md hst
+      refine ⟨?_, ?_, ?_, e4, ?_⟩
+      · intro g' hg hmw
+        obtain ⟨g1, g2⟩ := e1 g' hg hmw
+        obtain ⟨l1, l2⟩ := liftx g' .run g1
+        refine ⟨l1, ?_⟩
+        intro q q' hq
+        rw [hlx _ _ _ (by omega)]; rw [l2] at hq; exact g2 q q' hq
+      · intro g' stop hg hmw
+        obtain ⟨g1, g2⟩ := e2 g' stop hg hmw
+        obtain ⟨l1, l2⟩ := liftx g' _ g1
+        refine ⟨l1, ?_⟩
+        intro q q' hq
+        rw [hlx _ _ _ (by omega)]; rw [l2] at hq; exact g2 q q' hq
+      · intro bm hc1 hc2 hc3 hc4
+        obtain ⟨g1, g2⟩ := e3 bm hc1 hc2 hc3 hc4
+        obtain ⟨l1, l2⟩ := liftx _ _ g1
+        refine ⟨l1, ?_⟩
+        intro q' hq
+        rw [hlx _ _ _ (by omega)]; rw [l2] at hq; exact g2 q' hq
+      · intro bm hz0 hz1 hz2
+        obtain ⟨g1, g2⟩ := e5 bm hz0 hz1 hz2
+        obtain ⟨l1, l2⟩ := liftx { f with ip := f.ip + 1 } .run g1
+        refine ⟨l1, ?_⟩
+        intro q' hq
+        rw [hlx _ _ _ (by omega)]; rw [l2] at hq; exact g2 q' hq
   | @plus x a m g s1 o1 o2 ih =>
     intro K f md hst
     have hm : m = a + clen x := s1.len
@@ -1349,6 +1449,11 @@ theorem valid_run {code : Code} {r : Re} {a b : Nat} (hs : Seg code r a b) {ip :
     rcases hv with hv | hv
     · exact ih hv hn
     · exact hv.2.2
+  | @opt x a m' g _ _ h1 ih =>
+    simp only [Valid] at hv
+    rcases hv with hv | hv
+    · exact hv.2.2
+    · exact ih hv hn
   | @cat x y a m' b h1 h2 ih1 ih2 =>
     have hm : m' = a + clen x := h1.len
     simp only [Valid] at hv
@@ -1409,36 +1514,50 @@ theorem sstar_lang (e : Env) (h : FwdByte e) {r : Re} {n : Nat} (hs : Seg e.code
       exact ⟨by simpa [modeAfter] using g1v, fun q q' hq => g1l q q' (by simpa [modeAfter] using hq)⟩
     · exact absurd hstep (fun hh => no_astep hh (match_not_any (by rw [hv.1]; exact hmatch)))
 
+theorem maxBytes_le {e : Env} (h : FwdByte e) : e.start + e.maxBytes ≤ e.buf.size := by
+  have hs := h.startIn
+  unfold Env.maxBytes
+  simp only [h.notBack, Bool.false_eq_true, if_false, cs_one h, Nat.mod_one, Nat.sub_zero]
+  unfold Env.fwdSize
+  omega
+
+/-- invariant of the abstract machine on a whole program: whatever can still be accepted from a reachable state extends
+    to a match of the expression from the start position of the run (in scan mode: from SOME start position `s0`) -/
 theorem reach_lang (e : Env) (h : FwdByte e) {r : Re} {n : Nat} (hs : Seg e.code r 0 n) (hmatch : u8 e.code n = OP_MATCH)
     (hentry : e.entry = 0) {f : Fiber} {m : Mode} {bm : Nat} (hr : Reach e f m bm) :
     (Valid r 0 f.ip f.rc m ∨ AtEnd n f m) ∧ e.start + bm ≤ e.buf.size ∧
-      ∀ q', lang (specFlags e.fl) e.buf r 0 Keps f.ip f.rc m (e.start + bm) q' →
-        lang (specFlags e.fl) e.buf r 0 Keps 0 (-1) .run e.start q' := by
+      ∃ s0, e.start ≤ s0 ∧ s0 ≤ e.start + bm ∧ (e.fl.scan = false → s0 = e.start) ∧
+        ∀ q', lang (specFlags e.fl) e.buf r 0 Keps f.ip f.rc m (e.start + bm) q' →
+          lang (specFlags e.fl) e.buf r 0 Keps 0 (-1) .run s0 q' := by
   induction hr with
   | start =>
     simp only [hentry]
-    exact ⟨.inl (valid_first hs), h.startIn, fun q' hq => by simpa using hq⟩
-  | scanStart bm hsc => rw [h.notScan] at hsc; simp at hsc
+    exact ⟨.inl (valid_first hs), h.startIn, e.start, Nat.le_refl _, by omega, fun _ => rfl, fun q' hq => by simpa using hq⟩
+  | scanStart bm hsc hbm =>
+    simp only [hentry]
+    have := maxBytes_le h
+    exact ⟨.inl (valid_first hs), by omega, e.start + bm, by omega, Nat.le_refl _, fun hh => by rw [hsc] at hh; simp at hh,
+      fun q' hq => hq⟩
   | @sync f g m m' bm _ hmw hss ih =>
-    obtain ⟨hpos, hb, hl⟩ := ih
+    obtain ⟨hpos, hb, s0, h1, h2, h3, hl⟩ := ih
     obtain ⟨r1, r2⟩ := sstar_lang e h hs hmatch hss m hmw hpos
-    exact ⟨r1, hb, fun q' hq => hl q' (r2 _ q' hq)⟩
+    exact ⟨r1, hb, s0, h1, h2, h3, fun q' hq => hl q' (r2 _ q' hq)⟩
   | @zw f bm _ hnc hnm hz ih =>
-    obtain ⟨hpos, hb, hl⟩ := ih
+    obtain ⟨hpos, hb, s0, h1, h2, h3, hl⟩ := ih
     rcases hpos with hst | hend
     · obtain ⟨_, _, _, _, e5⟩ := seg_step e h hs Keps f .run hst
       obtain ⟨g1, g2⟩ := e5 bm hb hnc hz
-      exact ⟨g1, hb, fun q' hq => hl q' (g2 q' hq)⟩
+      exact ⟨g1, hb, s0, h1, h2, h3, fun q' hq => hl q' (g2 q' hq)⟩
     · exact absurd (by rw [hend.1]; exact hmatch) hnm
   | @cons f m bm _ hc hok hany hnp ih =>
-    obtain ⟨hpos, hb, hl⟩ := ih
+    obtain ⟨hpos, hb, s0, h1, h2, h3, hl⟩ := ih
     have hb' : e.start + (bm + e.cs) ≤ e.buf.size := by
       have := consume_in_buf h hok
       rw [cs_one h]; omega
     rcases hpos with hst | hend
     · obtain ⟨_, _, e3, _, _⟩ := seg_step e h hs Keps f m hst
       obtain ⟨g1, g2⟩ := e3 bm hc hok hany hnp
-      refine ⟨g1, hb', ?_⟩
+      refine ⟨g1, hb', s0, h1, by omega, h3, ?_⟩
       intro q' hq
       apply hl q'
       apply g2 q'
@@ -1449,18 +1568,21 @@ theorem reach_lang (e : Env) (h : FwdByte e) {r : Re} {n : Nat} (hs : Seg e.code
       simp [isConsuming, OP_MATCH, OP_ANY, OP_REPEAT_ANY_GREEDY, OP_REPEAT_ANY_UNGREEDY, OP_LITERAL, OP_NOT_LITERAL, OP_MASKED_LITERAL,
         OP_MASKED_NOT_LITERAL, OP_CLASS, OP_WORD_CHAR, OP_NON_WORD_CHAR, OP_SPACE, OP_NON_SPACE, OP_DIGIT, OP_NON_DIGIT] at hc
 
-/-- a reachable fiber at RE_OPCODE_MATCH after `L` bytes: the pattern matches `[start, start+L)` -/
+/-- a reachable fiber at RE_OPCODE_MATCH after `L` bytes: the expression matches `[s0, start+L)` for a start position `s0`
+    of the run (`s0 = start` unless the run is in scan mode) -/
 theorem match_sound (e : Env) (h : FwdByte e) {r : Re} {n : Nat} (hs : Seg e.code r 0 n) (hmatch : u8 e.code n = OP_MATCH)
     (hentry : e.entry = 0) {f : Fiber} {m : Mode} {L : Nat} (hr : Reach e f m L) (hm : u8 e.code f.ip = OP_MATCH) :
-    Re.Matches (specFlags e.fl) e.buf r e.start (e.start + L) := by
-  obtain ⟨hpos, _, hl⟩ := reach_lang e h hs hmatch hentry hr
+    ∃ s0, e.start ≤ s0 ∧ s0 ≤ e.start + L ∧ e.start + L ≤ e.buf.size ∧ (e.fl.scan = false → s0 = e.start) ∧
+      Re.Matches (specFlags e.fl) e.buf r s0 (e.start + L) := by
+  obtain ⟨hpos, hbd, s0, h1, h2, h3, hl⟩ := reach_lang e h hs hmatch hentry hr
   rcases hpos with hst | hend
   · exact absurd hm (start_not_match e h hs hst)
   · have hk : lang (specFlags e.fl) e.buf r 0 Keps f.ip f.rc m (e.start + L) (e.start + L) := by
       rw [hend.1, lang_end _ _ hs]; rfl
     obtain ⟨t, ht, hkt⟩ := lang_entry _ _ hs Keps _ _ (hl _ hk)
     simp only [Keps] at hkt
-    rwa [hkt] at ht
+    rw [hkt] at ht
+    exact ⟨s0, h1, h2, hbd, h3, ht⟩
 
 /-! ### the emitted bytes decode to a segment -/
 /-- `code` contains the byte list `bs` at address `a` -/
@@ -1482,11 +1604,12 @@ theorem sub_whole (bs : List UInt8) : Sub bs.toArray 0 bs := by
   intro i _
   simp [u8]
 
-theorem refOff_frag {r : Re} (hf : Frag r) : refOff false r = some 0 := by
-  induction hf with
-  | cat _ _ ih1 _ => simp [refOff, ih1]
-  | plus _ _ ih => simp [refOff, ih]
-  | _ => simp [refOff]
+theorem clen_pos {r : Re} (hf : Frag r) : 0 < clen r := by
+  induction hf <;> simp only [clen] <;> omega
+
+theorem emit_opt (x : Re) (g : Bool) (s : Nat) : (emit false (.range x 0 1 g) s).1 =
+    [if g then 0xC0 else 0xC1, UInt8.ofNat s] ++ leI16 (4 + (emit false x (s + 1)).1.length) ++ (emit false x (s + 1)).1 := by
+  simp [emit, emit.emitProlog, emit.emitRepeat, emit.emitSplit, emit.emitEpilog]
 
 theorem emit_len {r : Re} (hf : Frag r) : ∀ s, (emit false r s).1.length = clen r := by
   induction hf with
@@ -1497,9 +1620,20 @@ theorem emit_len {r : Re} (hf : Frag r) : ∀ s, (emit false r s).1.length = cle
     intro s
     simp only [emit, clen, List.length_append, List.length_cons, List.length_nil, leI16, le16]
     rw [ih]
-  | plus g _ ih =>
+  | @plus x g hx ih =>
     intro s
-    simp only [emit, clen, List.length_append, List.length_cons, List.length_nil, leI16, le16]
+    have hne : (emit false x s).1.isEmpty = false := by
+      have h1 := ih s
+      have h2 := clen_pos hx
+      cases hc : (emit false x s).1 with
+      | nil => rw [hc] at h1; simp at h1; omega
+      | cons _ _ => rfl
+    simp only [emit, hne, Bool.false_eq_true, if_false, clen, List.length_append, List.length_cons, List.length_nil, leI16, le16]
+    rw [ih]
+  | opt g _ ih =>
+    intro s
+    rw [emit_opt]
+    simp only [clen, List.length_append, List.length_cons, List.length_nil, leI16, le16]
     rw [ih]
   | cat _ _ ih1 ih2 =>
     intro s
@@ -1731,10 +1865,14 @@ theorem seg_of_emit {r : Re} (hf : Frag r) : ∀ (s : Nat) (code : Code) (a : Na
   | @plus x g hx ih =>
     intro s code a hsz h
     simp only [clen] at hsz ⊢
-    simp only [emit] at h
+    have hne : (emit false x s).1.isEmpty = false := by
+      have h1 := emit_len hx s
+      have h2 := clen_pos hx
+      cases hc : (emit false x s).1 with
+      | nil => rw [hc] at h1; simp at h1; omega
+      | cons _ _ => rfl
+    simp only [emit, hne, Bool.false_eq_true, if_false] at h
     -- ca ++ [op, id] ++ off16
-    rw [refOff_frag hx] at h
-    simp only [Option.getD_some, Int.natCast_zero, Int.zero_sub] at h
     obtain ⟨h12, hoff⟩ := sub_append h
     obtain ⟨hca, hhead⟩ := sub_append h12
     simp only [List.length_append, List.length_cons, List.length_nil, emit_len hx] at hoff hhead
@@ -1752,6 +1890,33 @@ theorem seg_of_emit {r : Re} (hf : Frag r) : ∀ (s : Nat) (code : Code) (a : Na
       exact hoff
     have := Seg.plus (code := code) (x := x) (a := a) (m := a + clen x) (g := g) sx hop (by rw [ho]; unfold addOff; omega)
     have e3 : a + (clen x + 4) = a + clen x + 4 := by omega
+    rw [e3]; exact this
+  | @opt x g hx ih =>
+    intro s code a hsz h
+    simp only [clen] at hsz ⊢
+    rw [emit_opt] at h
+    -- [op, id] ++ off16 ++ ca
+    obtain ⟨h12, hca⟩ := sub_append h
+    obtain ⟨hhead, hoff1⟩ := sub_append h12
+    simp only [List.length_append, List.length_cons, List.length_nil, leI16_length, emit_len hx] at hca hoff1
+    have hop : u8 code a = OP_SPLIT_A ∨ u8 code a = OP_SPLIT_B := by
+      have := hhead 0 (by simp); simp at this
+      cases g
+      · right; rw [this]; rfl
+      · left; rw [this]; rfl
+    have ho1 : i16 code (a + 2) = ((4 + clen x : Nat) : Int) := by
+      apply sub_leI16 (by omega)
+      have e1 : a + (0 + 1 + 1) = a + 2 := by omega
+      rw [e1] at hoff1
+      have e2 : ((4 + clen x : Nat) : Int) = 4 + (clen x : Int) := by omega
+      rw [e2]; exact hoff1
+    have sx : Seg code x (a + 4) (a + 4 + clen x) := by
+      apply ih (s + 1) code (a + 4) (by omega)
+      have e1 : a + (0 + 1 + 1 + (0 + 1 + 1)) = a + 4 := by omega
+      rw [e1] at hca; exact hca
+    have := Seg.opt (code := code) (x := x) (a := a) (m := a + 4 + clen x) (g := g) hop
+      (by rw [ho1]; unfold addOff; omega) sx
+    have e3 : a + (4 + clen x) = a + 4 + clen x := by omega
     rw [e3]; exact this
   | @cat x y hx hy ih1 ih2 =>
     intro s code a hsz h
@@ -1805,16 +1970,20 @@ theorem seg_of_emit {r : Re} (hf : Frag r) : ∀ (s : Nat) (code : Code) (a : Na
     rw [e3]; exact this
 
 
-/-- soundness of the VM on the code emitted for an expression of the fragment (byte mode, forwards, any nocase / dot-all
-    flags, exhaustive or not): every reported length is a match length of the expression at the start position -/
-theorem vm_sound_frag (r : Re) (hf : Frag r) (hsz : clen r < 32000) (buf : Bytes) (start : Nat) (hst : start ≤ buf.size)
-    (fl : VmFlags) (hw : fl.wide = false) (hb : fl.backwards = false) (hsc : fl.scan = false) (fuel : Nat) (m : Int) (c : List Nat)
-    (h : exec { code := (emitCode false r).toArray, entry := 0, buf := buf, start := start, fl := fl, syncFuel := fuel } = .done m c) :
-    (∀ L, L ∈ c → Re.Matches (specFlags fl) buf r start (start + L)) ∧
-    (0 ≤ m → Re.Matches (specFlags fl) buf r start (start + m.toNat)) := by
-  obtain ⟨e, he⟩ : ∃ e : Env, e = { code := (emitCode false r).toArray, entry := 0, buf := buf, start := start, fl := fl, syncFuel := fuel } := ⟨_, rfl⟩
+/-- the environment of a run of the emitted forward code of `r` -/
+def envOf (r : Re) (buf : Bytes) (start : Nat) (fl : VmFlags) (fuel : Nat) : Env :=
+  { code := (emitCode false r).toArray, entry := 0, buf := buf, start := start, fl := fl, syncFuel := fuel }
+
+theorem envOf_sound (r : Re) (hf : Frag r) (hsz : clen r < 32000) (buf : Bytes) (start : Nat) (hst : start ≤ buf.size)
+    (fl : VmFlags) (hw : fl.wide = false) (hb : fl.backwards = false) (fuel : Nat) (m : Int) (c : List Nat)
+    (h : exec (envOf r buf start fl fuel) = .done m c) :
+    (∀ L, L ∈ c → ∃ s0, start ≤ s0 ∧ s0 ≤ start + L ∧ start + L ≤ buf.size ∧ (fl.scan = false → s0 = start) ∧
+      Re.Matches (specFlags fl) buf r s0 (start + L)) ∧
+    (0 ≤ m → ∃ s0, start ≤ s0 ∧ s0 ≤ start + m.toNat ∧ start + m.toNat ≤ buf.size ∧ (fl.scan = false → s0 = start) ∧
+      Re.Matches (specFlags fl) buf r s0 (start + m.toNat)) := by
+  obtain ⟨e, he⟩ : ∃ e : Env, e = envOf r buf start fl fuel := ⟨_, rfl⟩
   rw [← he] at h
-  have hfb : FwdByte e := by subst he; exact ⟨hw, hb, hsc, hst⟩
+  have hfb : FwdByte e := by subst he; exact ⟨hw, hb, hst⟩
   have hsub : Sub e.code 0 ((emit false r 0).1 ++ [0xAD]) := by subst he; exact sub_whole _
   obtain ⟨h1, h2⟩ := sub_append hsub
   have hseg : Seg e.code r 0 (clen r) := by
@@ -1839,5 +2008,32 @@ theorem vm_sound_frag (r : Re) (hf : Frag r) (hsz : clen r < 32000) (buf : Bytes
     obtain ⟨f, md, hr, hm⟩ := g2 hm0
     have := match_sound e hfb hseg hmatch hentry hr hm
     rwa [hbuf, hstart, hfl] at this
+
+/-- soundness of the VM on the code emitted for an expression of the fragment (byte mode, forwards, any nocase / dot-all
+    flags, exhaustive or not, string verification = not scan mode): every reported length is a match length of the
+    expression at the start position -/
+theorem vm_sound_frag (r : Re) (hf : Frag r) (hsz : clen r < 32000) (buf : Bytes) (start : Nat) (hst : start ≤ buf.size)
+    (fl : VmFlags) (hw : fl.wide = false) (hb : fl.backwards = false) (hsc : fl.scan = false) (fuel : Nat) (m : Int) (c : List Nat)
+    (h : exec { code := (emitCode false r).toArray, entry := 0, buf := buf, start := start, fl := fl, syncFuel := fuel } = .done m c) :
+    (∀ L, L ∈ c → Re.Matches (specFlags fl) buf r start (start + L)) ∧
+    (0 ≤ m → Re.Matches (specFlags fl) buf r start (start + m.toNat)) := by
+  obtain ⟨g1, g2⟩ := envOf_sound r hf hsz buf start hst fl hw hb fuel m c h
+  constructor
+  · intro L hL
+    obtain ⟨s0, _, _, _, h3, hm⟩ := g1 L hL
+    rw [h3 hsc] at hm; exact hm
+  · intro hm0
+    obtain ⟨s0, _, _, _, h3, hm⟩ := g2 hm0
+    rw [h3 hsc] at hm; exact hm
+
+/-- soundness of the `matches` operator's engine run (RE_FLAGS_SCAN over the operand string, start 0): a result >= 0
+    means that the expression matches somewhere in the operand -/
+theorem matches_sound_frag (r : Re) (hf : Frag r) (hsz : clen r < 32000) (str : Bytes)
+    (fl : VmFlags) (hw : fl.wide = false) (hb : fl.backwards = false) (fuel : Nat) (m : Int) (c : List Nat)
+    (h : exec { code := (emitCode false r).toArray, entry := 0, buf := str, start := 0, fl := fl, syncFuel := fuel } = .done m c)
+    (hm : 0 ≤ m) : ∃ o q, o ≤ q ∧ q ≤ str.size ∧ Re.Matches (specFlags fl) str r o q := by
+  obtain ⟨_, g2⟩ := envOf_sound r hf hsz str 0 (Nat.zero_le _) fl hw hb fuel m c h
+  obtain ⟨s0, _, h2, h3, _, hmm⟩ := g2 hm
+  exact ⟨s0, 0 + m.toNat, h2, h3, hmm⟩
 
 end YaraModel.ReEmit
